@@ -312,6 +312,84 @@ def init_bounded(sess: Session):
     sess.add_bounded('wn.morphy.Morphy.__init__ (no wordnet)', 'one case', 1, 'execution', ok)
 
 
+def call_bounded(sess: Session):
+    """Differential stand-in: the real Morphy (uninitialized and initialized on small inventories) against the
+    documented rule semantics, on strings whose stems end in letters of the suffix (glasses, misses, freer, sees ...),
+    bare suffixes and unrelated strings."""
+    rules = M.DETACHMENT_RULES
+    stems = ['glass', 'miss', 'free', 'see', 'box', 'church', 'run', 'big', 'ox', 'e', 's', 'es', 'ed', 'ing', 'fuzz',
+             'dress', 'agree', 'er', 'est', 'men', 'goose']
+    queries = set(stems)
+    for pos, rs in rules.items():
+        for suf, rep, _ in rs:
+            queries.add(suf)
+            for st in stems:
+                queries.add(st + suf)
+                if rep and st.endswith(rep):
+                    queries.add(st[:-len(rep)] + suf)
+    queries = sorted(queries)
+
+    def reference(form, pos, lemmas=None, exc=None):
+        out = {}
+        if lemmas is None:
+            out[pos] = {form}
+        poses = list(rules) if pos is None else ([pos] if pos in rules else [])
+        base = out.get(None, set())
+        for p in poses:
+            cands = set()
+            if lemmas is not None:
+                if form in lemmas.get(p, set()):
+                    cands.add(form)
+                cands |= exc.get(p, {}).get(form, set())
+            for suf, rep, _ in rules[p]:
+                if form.endswith(suf) and len(suf) < len(form):
+                    c = form[:len(form) - len(suf)] + rep
+                    if lemmas is None or c in lemmas.get(p, set()):
+                        cands.add(c)
+            cands -= base
+            if cands:
+                out.setdefault(p, set()).update(cands)
+        return out
+
+    cases, bad = 0, []
+    un = M.Morphy()
+    for q in queries:
+        for pos in (None, 'n', 'v', 'a', 's', 'r', 'x'):
+            cases += 1
+            got, want = un(q, pos), reference(q, pos)
+            if got != want:
+                bad.append({'mode': 'uninitialized', 'form': q, 'pos': pos, 'got': got, 'want': want})
+
+    class W:
+        def __init__(self, words):
+            self._w = words
+
+        def words(self):
+            return [type('Word', (), {'pos': p, 'forms': (lambda self_, fs=fs: list(fs))})() for p, fs in self._w]
+    inventory = [('n', ['glass']), ('n', ['miss']), ('a', ['free']), ('v', ['see', 'saw']), ('n', ['ox', 'oxen']),
+                 ('v', ['run', 'ran']), ('n', ['goose', 'geese']), ('v', ['goose']), ('s', ['big']), ('n', ['saw']),
+                 ('v', ['dress']), ('n', ['dress']), ('a', ['well', 'better']), ('a', ['good', 'better'])]
+    ini = M.Morphy(W(inventory))
+    lemmas, exc = {}, {}
+    for p, fs in inventory:
+        lemmas.setdefault(p, set()).add(fs[0])
+        for o in fs[1:]:
+            exc.setdefault(p, {}).setdefault(o, set()).add(fs[0])
+    for q in queries + ['saw', 'oxen', 'ran', 'geese', 'better']:
+        for pos in (None, 'n', 'v', 'a', 's', 'r', 'x'):
+            cases += 1
+            got, want = ini(q, pos), reference(q, pos, lemmas, exc)
+            if got != want:
+                bad.append({'mode': 'initialized', 'form': q, 'pos': pos, 'got': got, 'want': want})
+    sess.add_bounded('wn.morphy.Morphy.__call__ / _morphstr', f'{len(queries)} query strings x 7 pos values, '
+                     'uninitialized and initialized on a 14-word inventory', cases, 'differential: documented rule '
+                     'semantics', not bad)
+    if bad:
+        sess.violation_direct('wn.morphy.Morphy.__call__:rules', 'result differs from the documented detachment-rule '
+                              'semantics', {'witness': repr(bad[0])[:1500]}, True,
+                              functions=('wn.morphy.Morphy.__call__', 'wn.morphy.Morphy._morphstr'))
+
+
 def run(sess: Session):
     sess.assume('A-ENGINE', 'z3-strings')
     sess.trust('z3 sequence theory for str.endswith / slicing / concatenation / len', 'vc/pyvc')
@@ -322,6 +400,12 @@ def run(sess: Session):
         except Unsupported as exc:
             sess.unsupported(f'wn.morphy:{part}', str(exc))
     init_bounded(sess)
+    call_bounded(sess)
+    from contracts import C09 as c09
+    try:
+        c09.dedup_bounded(sess)
+    except Unsupported as exc:
+        sess.unsupported('wn._core._find_helper:dedup', str(exc))
     # Wordnet level: union over the proposed (pos, form) pairs without duplicates = _find_helper's contract
     try:
         for ob in coreflows.find_helper_obligations(PROP):
